@@ -9,7 +9,7 @@ from .version import base_summaries, mk_version, same_key, _files_argv, _levels_
 
 def o1_7_write_snapshot(mir, tier):
     fn = mir.method('VersionSet', 'write_snapshot')
-    shapes = [{0: 2, 1: 1, 3: 1}] if tier == 'quick' else [{0: 2, 1: 1, 3: 1}, {0: 1, 2: 2, 6: 1}, {1: 3}]
+    shapes = [{0: 2, 1: 1, 6: 1}] if tier == 'quick' else [{0: 2, 1: 1, 6: 1}, {0: 1, 2: 2, 3: 1}, {1: 3}, {5: 1, 6: 2}]
     res = Result('O1.7 VersionSet::write_snapshot', [fn.path],
                  'current version with files per level %s (free metadata), 0 or 1 compaction pointer; add_file / add_compaction_pointer / LogWriter::append by contract' % (shapes,))
     t0 = time.time()
